@@ -338,7 +338,7 @@ pub fn race_space(prop: &str, rep: &Report, opts: &Opts, name: &str, starts: &[(
 pub fn run(opts: &Opts) -> i32 {
     let rep = Report::new("C02", "model_checking", opts);
     rep.set("exhaustive", true);
-    rep.set("rule", "start states = every distinct state of the C01 space (3 replicas) up to depth d0 in which >=2 replicas have pending operations or unseen versions; from each, every subset of >=2 replicas runs Replica::sync concurrently and EVERY interleaving of their individual server requests (get_snapshot/get_child_version/add_version/add_snapshot) is executed under the controlled scheduler (pairs: all interleavings; triples: preemption-bounded); oracle: every sync returns Ok (never OutOfSync), replica invariant, quiescence convergence = chain replay; non-trivial = schedules in which the server rejected at least one version (ExpectedParentVersion)");
+    rep.set("rule", "start states = every distinct state of the C01 space (3 replicas) up to depth d0 in which >=2 replicas have pending operations or unseen versions; from each, every subset of >=2 replicas runs Replica::sync concurrently and EVERY interleaving of their individual server requests (get_snapshot/get_child_version/add_version/add_snapshot) is executed under the controlled scheduler (pairs: all interleavings; triples: preemption-bounded); oracle: every sync returns Ok (never OutOfSync), replica invariant, quiescence convergence = chain replay; plus two whole syncs racing through the real local / object-store (thorough: git) server backends at request granularity; non-trivial = schedules in which the server rejected at least one version (ExpectedParentVersion)");
     rep.assume("request granularity: one Server trait call is atomic at the harness server (docs/src/sync-protocol.md: atomically with respect to other requests)");
     let q = opts.tier == Tier::Quick;
     let d0 = if q { 4 } else { 5 };
@@ -363,6 +363,9 @@ pub fn run(opts: &Opts) -> i32 {
     for (name, starts, urg) in spaces {
         race_space("C02", &rep, opts, name, &starts, urg, d0, bound3, deadline);
     }
+    // the same guarantee with a real server backend in the middle: two whole syncs racing through
+    // the local SQLite server, the object-store server (thorough: git with a shared remote)
+    super::backend_race::run("C02", &rep, opts.tier);
     rep.finish()
 }
 
